@@ -198,7 +198,7 @@ theorem disabled_reveals_nothing (o : Oracle) (rootTy : String) (fields : List (
   have hkeys := C01key o rootTy fields
   rw [exec_eq_spec _ _ _ hwf]
   have hB := spec_fields_gated (gateOracle fields o) rootTy [] fields
-    (fun f hf hgf => ⟨gatedNoDirs_mem hnd hf hgf, by
+    (fun f hf hgf => ⟨(gatedNoDirs_mem hnd hf hgf).1, (gatedNoDirs_mem hnd hf hgf).2, by
       simpa using gateOracle_res_gated fields hwf o f.1 f.2 hf hgf⟩) fi sh hmem hg
   obtain ⟨b1, b2, b3⟩ := hB
   simp only [List.nil_append] at b1
@@ -239,7 +239,8 @@ influence a single byte of it. -/
 theorem disabled_independent_of_introspection_data (o₁ o₂ : Oracle) (rootTy : String)
     (fields : List (FInfo × Shape)) (hwf : fieldsWF fields) (hnd : gatedNoDirs fields = true)
     (h : ∀ q, (∀ f ∈ fields, isGated f.1.name = true → ¬ [Seg.key f.1.alias] <+: q) →
-      o₁.res q = o₂.res q ∧ ∀ n, o₁.dir q n = o₂.dir q n) :
+      o₁.res q = o₂.res q ∧ (∀ n, o₁.dir q n = o₂.dir q n) ∧
+        ∀ n, o₁.plain q.dropLast n = o₂.plain q.dropLast n) :
     Impl.execRoot (gateOracle fields o₁) rootTy fields = Impl.execRoot (gateOracle fields o₂) rootTy fields := by
   rw [exec_eq_spec _ _ _ hwf, exec_eq_spec _ _ _ hwf]
   unfold Spec.execRoot
@@ -301,7 +302,8 @@ def plan : List (FInfo × Shape) :=
 def planFed : List (FInfo × Shape) := plan ++ [({ alias := "s", name := "_service" }, Shape.obj true false [("_Service", [])])]
 
 /-- an oracle under which, with introspection enabled, everything answers -/
-def open_ : Oracle := ⟨fun p => if p = [.key "i"] then .val (.leaf "7") else .val (.obj "__Schema"), fun _ _ => .pass⟩
+def open_ : Oracle := ⟨fun p => if p = [.key "i"] then .val (.leaf "7") else .val (.obj "__Schema"), fun _ _ => .pass,
+  fun _ _ => .missing⟩
 
 example : fieldsWF plan ∧ gatedNoDirs plan = true := by
   simp [plan, fieldsWF, Shape.WF, casesWF, gatedNoDirs, isGated, gatedNames]
@@ -309,14 +311,14 @@ example : fieldsWF plan ∧ gatedNoDirs plan = true := by
 /-- enabled: the gated position answers (the gate is what makes the difference) -/
 example : (Impl.execRoot open_ "Query" plan).1 = .obj [("a", .obj []), ("i", .leaf "7")] := by
   simp [Impl.execRoot, Impl.completeFields, Impl.completeField, Impl.runDirs, Impl.completeValue,
-    Impl.completeCases, plan, open_, Shape.isIface, V.isNull, Shape.nn, Out.isNull, St.invoked]
+    Impl.completeCases, plan, open_, Shape.isIface, V.isNull, Shape.nn, Out.isNull, St.invoked, St.resolved, Oracle.outcome]
 
 /-- disabled: null with the error, the ordinary field untouched -/
 example : (Impl.execRoot (gateOracle plan open_) "Query" plan).1 = .obj [("a", .null), ("i", .leaf "7")] ∧
     (Impl.execRoot (gateOracle plan open_) "Query" plan).2.errs = [⟨[.key "a"], "introspection disabled"⟩] := by
   simp [Impl.execRoot, Impl.completeFields, Impl.completeField, Impl.runDirs, Impl.completeValue,
     gateOracle, gatedAt, isGated, gatedNames, gateMsg, plan, open_, Shape.isIface, V.isNull, Shape.nn,
-    Out.isNull, St.invoked, St.addErr]
+    Out.isNull, St.invoked, St.resolved, St.addErr, Oracle.outcome]
 
 /-- disabled, federation: the non-null `_service` nulls the whole data -/
 example : (Impl.execRoot (gateOracle planFed open_) "Query" planFed).1 = .null := by
